@@ -28,7 +28,7 @@ func init() {
 			"arrival time stamp of a message = accumulated Driver.Sleep time of the Send call that carried its last byte (C04)",
 			"inter-arrival gaps are kept below 0x07FFFFFF ticks at the recording tempo and resolution (a delta must be representable in the file)",
 		},
-		Require: []string{"recordings", "channel_messages_recorded", "non_channel_messages_sent", "realtime_sent", "syscommon_sent", "strict_validated", "read_back", "delta_checks", "file_level_recordings", "recordings_with_long_pause"},
+		Require: []string{"recordings", "channel_messages_recorded", "non_channel_messages_sent", "realtime_sent", "syscommon_sent", "strict_validated", "read_back", "delta_checks", "file_level_recordings", "recordings_with_long_pause", "recordings_with_oversized_sysex"},
 		Run:     runC13,
 	})
 }
@@ -50,6 +50,20 @@ func runC13(c *mon.Ctx) {
 			bpm = 20 + float64(r.Intn(380000))/1000
 		}
 		msgs := gen.LiveSequence(r, r.Range(1, 40), 1024, true)
+		oversize := false
+		if r.P(1, 12) {
+			// 'whatever else arrives on the port': a sysex dump larger than the listener's buffer
+			n := r.Pick(1025, 1026, 1027, 1500, 2048, 2049, 3000)
+			sx := make([]byte, n)
+			sx[0] = 0xF0
+			for j := 1; j < n-1; j++ {
+				sx[j] = byte(j) & 0x7F
+			}
+			sx[n-1] = 0xF7
+			p := r.Intn(len(msgs) + 1)
+			msgs = append(msgs[:p], append([][]byte{sx}, msgs[p:]...)...)
+			oversize = true
+		}
 		w := gen.Serialize(r, msgs, gen.SerOpts{RunningStatus: true, Realtime: r.P(2, 3)})
 		stream := w.Bytes
 		// stray data bytes in front (ignored by a receiver without running status)
@@ -176,6 +190,9 @@ func runC13(c *mon.Ctx) {
 		c.Count("recordings", 1)
 		if longPause {
 			c.Count("recordings_with_long_pause", 1)
+		}
+		if oversize {
+			c.Count("recordings_with_oversized_sysex", 1)
 		}
 		c.Count("non_channel_messages_sent", int64(nonCh))
 		c.Count("realtime_sent", int64(rt))
